@@ -6,6 +6,12 @@ HOOK_COMMITS = ["51bbd89"]
 
 # id -> (technique, level text, level note, design ref)
 CHECKS = {
+ "C01": ("panic/abort monitor at the BufferParser::print_char boundary (catch_unwind + panic hook + supervised worker processes with write-ahead journal), enumerated control-function table x screen states plus seeded grammar/raw/mutated streams; debug-assertion UB precondition checks observed as aborts",
+         "Every character of every generated stream goes through the real emulation under a panic monitor; worker deaths (abort, stack overflow) are attributed to the single case in BEGIN state. The complete CSI table (63 finals x 8 intermediates x <=2 boundary parameters) x 8 state prefixes x 4 screens and ESC/lead-in + every byte for all 10 emulations are enumerated; longer histories are sampled. Held = no panic/abort on any observed execution.",
+         "Characters are the 256 byte values. Resource exhaustion (work budget, allocation refusal, nesting) is C03's verdict, not C01's. Coverage beyond the enumerated table is sampling.", "DESIGN.md §4 C01"),
+ "C09": ("runtime invariant assertion after every print_char (cursor inside visible window, fixed 40x24 grid), exhaustive <=3-token sequences + seeded streams, violations shrunk by delta debugging",
+         "The geometry invariant is evaluated after every character of every stream. All <=2-token sequences over a ~230-token alphabet and (thorough) all 3-token sequences over the 70-token core alphabet x 5 sizes x {fresh, scrollback} are enumerated; byte pairs for the non-CSI emulations; random streams up to 4 KiB.",
+         "Streams are not checked after their first ResizeTerminal action. Streams ending in a panic are C01's matter.", "DESIGN.md §4 C09"),
  "C18": ("exhaustive enumeration of the codec domains against round-trip oracles (runtime assertion monitor)",
          "Complete enumeration of the finite domain stated in the property (256 bytes x 3 modes, all expressible attribute tuples, 256 CP437 + 128 ATASCII codes, 63 typed characters x 5 converters), each executed on the real codecs under the panic monitor; exhaustive, so the verdict covers every input of the quantifier.",
          "Trusts the harness's definition of 'expressible in a mode' (image of from_u8) and of the displayed foreground (bold folding).", "DESIGN.md §4 C18"),
